@@ -10,6 +10,8 @@ use serde::{Deserialize, Serialize};
 use std::collections::BTreeMap;
 
 const LABEL_SESSION: u64 = 0x5345_5353;
+/// Session indices from here on are sweep sessions (see `plan_sweep`).
+pub const SWEEP_BASE: u64 = 1 << 40;
 
 pub const KINDS: &[&str] = &[
     "rekey",
@@ -34,6 +36,9 @@ pub struct SessionParams {
     pub mutants: u64,
     pub min_steps: usize,
     pub max_steps: usize,
+    /// number of sweep sessions the pool is divided among
+    #[serde(default)]
+    pub sweep_n: u64,
 }
 
 #[derive(Clone, Debug, Default, Serialize, Deserialize)]
@@ -93,7 +98,77 @@ impl Builder {
     }
 }
 
+/// Sweep session k of n: every pool item i with i % n == k, in order, each delivered on the
+/// initial thread under one key and, a few steps later, on a worker under another key.
+fn plan_sweep(p: &SessionParams, pool: &Pool) -> (Plan, SessionMeta) {
+    let k = (p.idx - SWEEP_BASE) as usize;
+    let n = p.sweep_n.max(1) as usize;
+    let seed = derive_seed(p.root, LABEL_SESSION, p.idx);
+    let mut keys = Rng::new(derive_seed(seed, 3, 0));
+    let mut plan = Plan::default();
+    let mut fired: BTreeMap<String, usize> = BTreeMap::new();
+    let all = pool
+        .corpus
+        .entries
+        .iter()
+        .map(|e| &e.req)
+        .chain(pool.directed.iter());
+    let mut pending: Vec<usize> = Vec::new();
+    for (i, r) in all.enumerate() {
+        if i % n != k {
+            continue;
+        }
+        plan.reqs.push(r.clone());
+        let ri = plan.reqs.len() - 1;
+        plan.steps.push(Step {
+            req: ri,
+            thread: "main".into(),
+            policy: Policy::Keyed { k0: keys.next_u64(), k1: keys.next_u64() },
+            kinds: vec!["main-thread".into(), "rekey".into()],
+        });
+        pending.push(ri);
+        if pending.len() >= 8 {
+            for ri in pending.drain(..) {
+                plan.steps.push(Step {
+                    req: ri,
+                    thread: "w0".into(),
+                    policy: Policy::Counting { k0: keys.next_u64(), k1: keys.next_u64() },
+                    kinds: vec!["redeliver-later".into(), "thread-switch".into(), "std-like-keys".into()],
+                });
+            }
+        }
+    }
+    for ri in pending.drain(..) {
+        plan.steps.push(Step {
+            req: ri,
+            thread: "w0".into(),
+            policy: Policy::Counting { k0: keys.next_u64(), k1: keys.next_u64() },
+            kinds: vec!["redeliver-later".into(), "thread-switch".into(), "std-like-keys".into()],
+        });
+    }
+    for st in &plan.steps {
+        for kd in &st.kinds {
+            *fired.entry(kd.clone()).or_default() += 1;
+        }
+    }
+    let meta = SessionMeta {
+        seed,
+        enabled: vec!["sweep".into()],
+        key_policy: "sweep".into(),
+        workers: 1,
+        working_set: plan.reqs.len(),
+        corpus_share_pct: 100,
+        length: plan.steps.len(),
+        fired,
+        mutation_ops: BTreeMap::new(),
+    };
+    (plan, meta)
+}
+
 pub fn plan_session(p: &SessionParams, pool: &Pool) -> (Plan, SessionMeta) {
+    if p.idx >= SWEEP_BASE {
+        return plan_sweep(p, pool);
+    }
     let seed = derive_seed(p.root, LABEL_SESSION, p.idx);
     // Twin sessions: sessions 2k and 2k+1 draw the same working set (client stream) but have
     // their own schedule and key streams, so every input is observed in at least two processes
